@@ -264,14 +264,27 @@ def sg_sweep(prog: Program, census_only: bool = False) -> RuleResult:
                     "override bypasses the sweeping entry point")
     sg = prog.cls(SG)
     rd = prog.method(sg.qual, "remove_dead_instances", inherited=False)
-    loops = [n for n in walk_local(rd.node) if isinstance(n, ast.For)]
+    # on the flow graph of the sweep: in the loop over the nodes of the instance graph, the branch on which the node's referent is gone
+    # reaches remove_node before the next node is looked at - however the test is spelled (`if dead: remove`, `if alive: continue`)
+    rcfg = CFG(rd.node)
     good = False
-    for lp in loops:
-        if "_instance_graph" in src(lp.iter) and "nodes" in src(lp.iter):
-            for s in walk_local(lp):
-                if isinstance(s, ast.If) and isinstance(s.test, ast.Compare) and isinstance(s.test.ops[0], ast.Is) and src(s.test.comparators[0]) == "None" and src(s.test.left).endswith(".instance"):
-                    if any(call_name(c) == "remove_node" for c in calls_in(s)):
-                        good = True
+    for lp in [n for n in rcfg.nodes if n.kind == "for" and "_instance_graph" in src(n.stmt.iter) and "nodes" in src(n.stmt.iter)]:
+        removes = {n.id for n in rcfg.nodes if n.stmt is not None and n.kind == "stmt" and lp.id in n.loops and any(call_name(c) == "remove_node" for c in calls_in(n.stmt))}
+        tests = []
+        for t in rcfg.nodes:
+            if t.kind != "test" or lp.id not in t.loops or not isinstance(t.stmt, ast.If):
+                continue
+            tt = t.stmt.test
+            if isinstance(tt, ast.Compare) and len(tt.ops) == 1 and isinstance(tt.ops[0], (ast.Is, ast.IsNot)) and src(tt.comparators[0]) == "None" and src(tt.left).endswith(".instance"):
+                dead_when_true = isinstance(tt.ops[0], ast.Is)
+                dead = [t.true_succ] if dead_when_true else [x for x in t.succ if x != t.true_succ]
+                tests.append((t, [d for d in dead if d is not None]))
+        for t, dead in tests:
+            # the liveness test is the first thing the loop does, and its dead branch cannot get back to the loop head (or out) without removing
+            first = any(t.id == x for x in lp.succ)
+            through = bool(dead) and all(d in removes or (rcfg.path_avoiding(d, lp.id, removes) is None and rcfg.path_avoiding(d, rcfg.exit, removes) is None) for d in dead)
+            if first and through and removes:
+                good = True
     r.check(good or skips_dead, "SymbolGraph.remove_dead_instances#all-dead-nodes", site(rd), "",
             "every node whose referent is dead is removed" if good else "the sweep is incomplete, but the enumeration skips wrappers whose instance is gone: the census is exact all the same",
             "the sweep does not remove every graph node whose weak referent is dead")
